@@ -40,6 +40,7 @@ theorem comp_cons {α} {E : PixAlg α} (L : PixLaws E) (a : α) (l : List α) : 
 def fillPix {α} (E : PixAlg α) : SFill → Pt → α
   | .solid c a, _ => E.solidPix c a
   | .lin g l, z => E.linePix l (linParam g z)
+  | .rad g gt l, z => E.radPix l (g.sol ((gt.inverseEps eps).app z))
 
 theorem id_invertible : C06.Invertible Aff.id := by
   unfold C06.Invertible
@@ -57,14 +58,38 @@ theorem inv_mul_app {A B : Aff} (hA : Invertible A) (hB : Invertible B) (hAB : I
   rw [inv_app hAB] at this
   exact this.symm
 
+/-- what a usable similarity/remainder split gives for every invertible transform: `compose_ltr((u, r)) = t` with `u` a similarity
+(positive uniform scale, possibly with the y-flip kept) -/
+structure DecOK (dec : Dec) : Prop where
+  ok : ∀ t, Invertible t → Aff.composeLtr [(dec t).1, (dec t).2] = t ∧ (dec t).1.b = 0 ∧ (dec t).1.c = 0 ∧
+    ((dec t).1.d = (dec t).1.a ∨ (dec t).1.d = -(dec t).1.a) ∧ 0 < (dec t).1.a ∧ Invertible (dec t).1 ∧ Invertible (dec t).2
+
+/-- the degenerate split (no uniform part: circles untouched, everything in `gradientTransform`) is one: `DecOK` is inhabited -/
+theorem decOK_trivial : DecOK (fun t => (Aff.id, t)) :=
+  ⟨fun t ht => ⟨by simp [Aff.composeLtr, Aff.mul, Aff.id], rfl, rfl, Or.inl rfl, by norm_num [Aff.id], id_invertible, ht⟩⟩
+
+/-- **radial gradients under a general affine**: the circles mapped by the similarity `u`, looked at through the remainder `r`, have at
+every point exactly the colour-line solutions the original circles have through `t = compose_ltr((u, r))` -/
+theorem radial_split_sound (g : RadGrad) (t u r : Aff) (hcomp : Aff.composeLtr [u, r] = t)
+    (hb : u.b = 0) (hc : u.c = 0) (hd : u.d = u.a ∨ u.d = -u.a) (hs : 0 < u.a)
+    (hu : Invertible u) (hr : Invertible r) (ht : Invertible t) (x : Pt) (τ : Q) :
+    (g.applyUniform u).sol ((r.inverseEps eps).app x) τ ↔ g.sol ((t.inverseEps eps).app x) τ := by
+  rw [Aff.composeLtr2] at hcomp
+  subst hcomp
+  rw [inv_mul_app hr hu ht]
+  have := C16.radial_similarity u hb hc hd hs g ((u.inverseEps eps).app ((r.inverseEps eps).app x)) τ
+  rwa [app_inv hu] at this
+
 mutual
 def FillOK (V : Aff) : Aff → CP → Prop
   | _, .solid _ _ => True
   | t, .lin _ _ => Invertible (Aff.composeLtr [t, V])
+  | t, .rad _ _ => Invertible (Aff.composeLtr [t, V])
   | t, .transform m c => Invertible m ∧ Invertible (t.mul m) ∧ FillOK V (t.mul m) c
   | _, .glyph _ _ => False
   | _, .layers _ => False
   | _, .group _ _ => False
+  | _, .ref _ => False
 end
 
 mutual
@@ -73,16 +98,18 @@ def WFAt (V : Aff) : Aff → CP → Prop
   | acc, .transform m c => Invertible m ∧ Invertible (acc.mul m) ∧ WFAt V (acc.mul m) c
   | acc, .layers ps => WFList V acc ps
   | acc, .group _ c => WFAt V acc c
+  | acc, .ref c => Invertible (pathTr V acc) ∧ WFAt V Aff.id c
   | _, .solid _ _ => False
   | _, .lin _ _ => False
+  | _, .rad _ _ => False
 def WFList (V : Aff) : Aff → List CP → Prop
   | _, [] => True
   | acc, p :: ps => WFAt V acc p ∧ WFList V acc ps
 end
 
 /-- the fill written on the `<path>` shows, at `V u`, what the COLR fill shows at `u` -/
-theorem fill_correct {α} (E : PixAlg α) (V : Aff) (hV : Invertible V) : ∀ (c : CP) (t : Aff) (f : SFill),
-    Invertible t → FillOK V t c → fillOf V t c = some f → ∀ u : Pt,
+theorem fill_correct {α} (E : PixAlg α) (V : Aff) (hV : Invertible V) (dec : Dec) (hdec : DecOK dec) : ∀ (c : CP) (t : Aff) (f : SFill),
+    Invertible t → FillOK V t c → fillOf V dec t c = some f → ∀ u : Pt,
     colrRender E c ((t.inverseEps eps).app u) = fillPix E f (V.app u)
   | .solid c a, t, f, _, _, hf, u => by
     simp only [fillOf, Option.some.injEq] at hf
@@ -96,24 +123,43 @@ theorem fill_correct {α} (E : PixAlg α) (V : Aff) (hV : Invertible V) : ∀ (c
     have e : V.app u = (Aff.composeLtr [t, V]).app ((t.inverseEps eps).app u) := by
       rw [Aff.composeLtr2, app_mul, app_inv ht]
     rw [e, C16.linParam_affine _ hM.det_ne]
+  | .rad g l, t, f, ht, hok, hf, u => by
+    simp only [fillOf, Option.some.injEq] at hf
+    subst hf
+    simp only [colrRender, fillPix]
+    have hM : Invertible (Aff.composeLtr [t, V]) := hok
+    obtain ⟨hcomp, hb, hc, hd, hs, hu, hr⟩ := hdec.ok _ hM
+    have key : ((Aff.composeLtr [t, V]).inverseEps eps).app (V.app u) = (t.inverseEps eps).app u := by
+      have e : V.app u = (Aff.composeLtr [t, V]).app ((t.inverseEps eps).app u) := by
+        rw [Aff.composeLtr2, app_mul, app_inv ht]
+      rw [e, inv_app hM]
+    congr 1
+    funext τ
+    apply propext
+    have := radial_split_sound g _ _ _ hcomp hb hc hd hs hu hr hM (V.app u) τ
+    rw [key] at this
+    exact this.symm
   | .transform m c, t, f, ht, hok, hf, u => by
     obtain ⟨hm, htm, hok'⟩ := hok
     simp only [fillOf] at hf
     simp only [colrRender]
-    have := fill_correct E V hV c (t.mul m) f htm hok' hf u
+    have := fill_correct E V hV dec hdec c (t.mul m) f htm hok' hf u
     rw [inv_mul_app ht hm htm] at this
     exact this
   | .glyph _ _, _, _, _, hok, _, _ => by simp [FillOK] at hok
   | .layers _, _, _, _, hok, _, _ => by simp [FillOK] at hok
   | .group _ _, _, _, _, hok, _, _ => by simp [FillOK] at hok
+  | .ref _, _, _, _, hok, _, _ => by simp [FillOK] at hok
 
-theorem fillOf_some_of_ok (V : Aff) : ∀ (c : CP) (t : Aff), FillOK V t c → ∃ f, fillOf V t c = some f
+theorem fillOf_some_of_ok (V : Aff) (dec : Dec) : ∀ (c : CP) (t : Aff), FillOK V t c → ∃ f, fillOf V dec t c = some f
   | .solid c a, _, _ => ⟨_, rfl⟩
   | .lin g l, _, _ => ⟨_, rfl⟩
-  | .transform m c, t, h => by simpa [fillOf] using fillOf_some_of_ok V c (t.mul m) h.2.2
+  | .rad g l, _, _ => ⟨_, rfl⟩
+  | .transform m c, t, h => by simpa [fillOf] using fillOf_some_of_ok V dec c (t.mul m) h.2.2
   | .glyph _ _, _, h => by simp [FillOK] at h
   | .layers _, _, h => by simp [FillOK] at h
   | .group _ _, _, h => by simp [FillOK] at h
+  | .ref _, _, h => by simp [FillOK] at h
 
 theorem svgRenderList_append {α} (E : PixAlg α) (V : Aff) : ∀ (l1 l2 : List SV) (y : Pt),
     svgRenderList E V (l1 ++ l2) y = svgRenderList E V l1 y ++ svgRenderList E V l2 y
@@ -137,11 +183,19 @@ theorem pathTr_inv (V acc : Aff) (hV : Invertible V) (hacc : Invertible acc) (ht
 theorem applyTransform_comp (g : LinGrad) (A B : Aff) : (g.applyTransform A).applyTransform B = g.applyTransform (B.mul A) := by
   simp only [LinGrad.applyTransform, app_mul]
 
+/-- fills `svg._apply_paint` is modelled for: solid and linear under transforms (its radial branch is the C02 known finding) -/
+def NoRad : CP → Prop
+  | .rad _ _ => False
+  | .transform _ c => NoRad c
+  | _ => True
+
 /-- **C02**: `svg._apply_paint` computes the same fill as the colr_to_svg walk (`fillOf`): mapping the points by `U` and then
 by the conjugated transform `U⁻¹;T;U` is mapping them by `T;U` -/
-theorem applyPaintFill_eq_fillOf (U : Aff) (hU : C06.Invertible U) : ∀ (c : CP) (T : Aff), applyPaintFill U T c = fillOf U T c
-  | .solid _ _, _ => rfl
-  | .lin g l, T => by
+theorem applyPaintFill_eq_fillOf (U : Aff) (hU : C06.Invertible U) (dec : Dec) : ∀ (c : CP) (T : Aff), NoRad c →
+    applyPaintFill U T c = fillOf U dec T c
+  | .solid _ _, _, _ => rfl
+  | .rad _ _, _, h => by simp [NoRad] at h
+  | .lin g l, T, _ => by
     simp only [applyPaintFill, fillOf]
     congr 2
     split
@@ -150,34 +204,35 @@ theorem applyPaintFill_eq_fillOf (U : Aff) (hU : C06.Invertible U) : ∀ (c : CP
       rw [applyTransform_comp, Aff.composeLtr3, Aff.composeLtr2]
       congr 1
       rw [Aff.mul_assoc', (Aff.mul_inverseEps eps U hU eps_nonneg).2, Aff.mul_id]
-  | .transform m c, T => by
+  | .transform m c, T, h => by
     simp only [applyPaintFill, fillOf]
-    exact applyPaintFill_eq_fillOf U hU c (T.mul m)
-  | .glyph _ _, _ => rfl
-  | .layers _, _ => rfl
-  | .group _ _, _ => rfl
+    exact applyPaintFill_eq_fillOf U hU dec c (T.mul m) h
+  | .glyph _ _, _, _ => rfl
+  | .layers _, _, _ => rfl
+  | .group _ _, _, _ => rfl
+  | .ref _, _, _ => rfl
 
 /-- **C02 (fill of an OT-SVG path)**: the fill `_apply_paint` writes for a paint under any chain of transform paints shows, at the
 viewBox point `U u`, what the COLR-style paint shows at the font-space point `u` -/
 theorem otsvg_fill_correct {α} (E : PixAlg α) (U : Aff) (hU : C06.Invertible U) (c : CP) (f : SFill)
-    (hok : FillOK U Aff.id c) (hf : applyPaintFill U Aff.id c = some f) (u : Pt) :
+    (hnr : NoRad c) (hok : FillOK U Aff.id c) (hf : applyPaintFill U Aff.id c = some f) (u : Pt) :
     colrRender E c u = fillPix E f (U.app u) := by
-  rw [applyPaintFill_eq_fillOf U hU] at hf
-  have := fill_correct E U hU c Aff.id f id_invertible hok hf u
+  rw [applyPaintFill_eq_fillOf U hU (fun t => (Aff.id, t)) c Aff.id hnr] at hf
+  have := fill_correct E U hU _ decOK_trivial c Aff.id f id_invertible hok hf u
   rwa [inv_id_app] at this
 
 mutual
 /-- **C13 (recursive walk)**: for every supported paint graph, every accumulated transform, every point: the
 elements `_colr_v1_paint_to_svg` emits show at `V x` exactly what COLR shows at `x` -/
-theorem toSvg_correct {α} (E : PixAlg α) (L : PixLaws E) (V : Aff) (hV : Invertible V) : ∀ (p : CP) (acc : Aff),
+theorem toSvg_correct {α} (E : PixAlg α) (L : PixLaws E) (V : Aff) (hV : Invertible V) (dec : Dec) (hdec : DecOK dec) : ∀ (p : CP) (acc : Aff),
     Invertible acc → WFAt V acc p → ∀ x : Pt,
-    colrRender E p ((acc.inverseEps eps).app x) = E.comp (svgRenderList E V (toSvg V acc p) (V.app x))
+    colrRender E p ((acc.inverseEps eps).app x) = E.comp (svgRenderList E V (toSvg V dec acc p) (V.app x))
   | .glyph o c, acc, hacc, hwf, x => by
     obtain ⟨htr, hok⟩ := hwf
-    obtain ⟨f, hf⟩ := fillOf_some_of_ok V c Aff.id hok
+    obtain ⟨f, hf⟩ := fillOf_some_of_ok V dec c Aff.id hok
     simp only [toSvg, hf, svgRenderList, comp_single L, svgRender, colrRender]
     rw [pathTr_inv V acc hV hacc htr x, inv_app hV]
-    have hfill := fill_correct E V hV c Aff.id f id_invertible hok hf ((acc.inverseEps eps).app x)
+    have hfill := fill_correct E V hV dec hdec c Aff.id f id_invertible hok hf ((acc.inverseEps eps).app x)
     rw [inv_id_app] at hfill
     split
     · rw [hfill]; cases f <;> rfl
@@ -186,24 +241,36 @@ theorem toSvg_correct {α} (E : PixAlg α) (L : PixLaws E) (V : Aff) (hV : Inver
     obtain ⟨hm, ham, hwf'⟩ := hwf
     simp only [toSvg, colrRender]
     rw [← inv_mul_app hacc hm ham]
-    exact toSvg_correct E L V hV c (acc.mul m) ham hwf' x
+    exact toSvg_correct E L V hV dec hdec c (acc.mul m) ham hwf' x
   | .layers ps, acc, hacc, hwf, x => by
     simp only [toSvg, colrRender]
-    exact toSvgList_correct E L V hV ps acc hacc hwf x
+    exact toSvgList_correct E L V hV dec hdec ps acc hacc hwf x
   | .group a c, acc, hacc, hwf, x => by
     simp only [toSvg, colrRender, svgRenderList, comp_single L, svgRender]
-    rw [toSvg_correct E L V hV c acc hacc hwf x]
+    rw [toSvg_correct E L V hV dec hdec c acc hacc hwf x]
+  | .ref c, acc, hacc, hwf, x => by
+    obtain ⟨htr, hwf'⟩ := hwf
+    simp only [toSvg, colrRender]
+    have ih := toSvg_correct E L V hV dec hdec c Aff.id id_invertible hwf' ((acc.inverseEps eps).app x)
+    rw [inv_id_app] at ih
+    split
+    next h => subst h; rw [inv_id_app] at ih ⊢; exact ih
+    next h =>
+      simp only [svgRenderList, comp_single L, svgRender]
+      rw [pathTr_inv V acc hV hacc htr x]
+      exact ih
   | .solid _ _, _, _, hwf, _ => by simp [WFAt] at hwf
   | .lin _ _, _, _, hwf, _ => by simp [WFAt] at hwf
-theorem toSvgList_correct {α} (E : PixAlg α) (L : PixLaws E) (V : Aff) (hV : Invertible V) : ∀ (ps : List CP) (acc : Aff),
+  | .rad _ _, _, _, hwf, _ => by simp [WFAt] at hwf
+theorem toSvgList_correct {α} (E : PixAlg α) (L : PixLaws E) (V : Aff) (hV : Invertible V) (dec : Dec) (hdec : DecOK dec) : ∀ (ps : List CP) (acc : Aff),
     Invertible acc → WFList V acc ps → ∀ x : Pt,
-    E.comp (colrRenderList E ps ((acc.inverseEps eps).app x)) = E.comp (svgRenderList E V (toSvgList V acc ps) (V.app x))
+    E.comp (colrRenderList E ps ((acc.inverseEps eps).app x)) = E.comp (svgRenderList E V (toSvgList V dec acc ps) (V.app x))
   | [], _, _, _, _ => by simp [colrRenderList, toSvgList, svgRenderList]
   | p :: ps, acc, hacc, hwf, x => by
     obtain ⟨hp, hps⟩ := hwf
     simp only [colrRenderList, toSvgList]
-    rw [comp_cons L, svgRenderList_append, comp_append L, toSvg_correct E L V hV p acc hacc hp x,
-      toSvgList_correct E L V hV ps acc hacc hps x]
+    rw [comp_cons L, svgRenderList_append, comp_append L, toSvg_correct E L V hV dec hdec p acc hacc hp x,
+      toSvgList_correct E L V hV dec hdec ps acc hacc hps x]
 end
 
 end NanoVerif.C13
